@@ -5,8 +5,11 @@ HARNESS = r'''
 from strengths import *
 from strengths.rdscript import RDScript, rdscript_to_dict, rdscript_from_dict
 from strengths.librdengine import LibRDEngine
-from harness.c12lib import mk_system
+from harness.c12lib import mk_system, mk_script
+import copy as _copy
 from vt.glue import RecLib, GRID_NAMES
+
+from harness.c08lib import setup_is_pure
 
 _S = None
 
@@ -45,7 +48,7 @@ def seed_reaches_engine(k, opt):
 
 def run(rec):
     rec.assume("the script's seed: symbolic for the store/copy/dict legs (CrossHair); boundary seeds {0, 1, 12345, 2^31-1, 2^31, 2^32-1} x engine kinds for the value that reaches the C ABI (ctypes realises it), compared modulo 2^32")
-    rec.encoded("RDScript.rng_seed / copy, rdscript_to_dict/from_dict, LibRDEngine.setup (seed argument)")
+    rec.encoded("RDScript.rng_seed / copy, rdscript_to_dict/from_dict, LibRDEngine.setup (seed argument; reads of the script)")
     text = HARNESS + '''
 
 def h_seed_kept(seed: int) -> bool:
@@ -71,8 +74,19 @@ def h_seed_reaches_engine(k: int, opt: int) -> bool:
     """
     return seed_reaches_engine(k, opt)
 '''
+    text += '''
+
+def h_setup_is_pure(f_units: int, f_space: int, o1: int, o2: int) -> bool:
+    """
+    pre: 0 <= f_units <= 5 and 0 <= f_space <= 1 and 0 <= o1 <= 2 and 0 <= o2 <= 2
+    post: _
+    """
+    return setup_is_pure(f_units, f_space, o1, o2)
+'''
     mod = pysym.write_module("hgen_C08", text)
     pysym.run_auto(rec, mod, [
         {"fn": "h_seed_kept", "what": "a given seed is stored, carried by copy() and by the dictionary round trip (seed symbolic in [0, 2^32))", "sig": "c08-seed-kept", "structure": "seed", "timeout": 60, "force_crosshair": True},
         {"fn": "h_seed_drawn", "what": "when no seed is given an integer in [0, 2^32) is drawn, stored and carried by copies", "sig": "c08-seed-drawn", "structure": "seed"},
-        {"fn": "h_seed_reaches_engine", "what": "LibRDEngine.setup hands exactly the script's seed (mod 2^32) to the native engine, and the stored script keeps it", "sig": "c08-seed-abi", "structure": "seed"}])
+        {"fn": "h_seed_reaches_engine", "what": "LibRDEngine.setup hands exactly the script's seed (mod 2^32) to the native engine, and the stored script keeps it", "sig": "c08-seed-abi", "structure": "seed"},
+        {"fn": "h_setup_is_pure", "what": "LibRDEngine.setup never writes to the caller's script: its dictionary is unchanged and a later set-up of the same script object (any engine kind) hands the native engine exactly what a freshly built identical script gives (6 unit-system choices incl. non-molecule quantity units x grid/graph x 3x3 engine kinds)",
+         "sig": "c08-setup-pure", "structure": "script", "viol": "setting an engine up changes the caller's script, so the next simulation of the same script differs"}])
